@@ -47,10 +47,21 @@ def mutations(s):
         if i in oe and ch in "{}":
             out.append(("unbalanced-brace", i, s[:i] + s[i + 1 :]))
     # descriptor between two chain atoms
-    for m in re.finditer(r"(?<=[CNOS])(?=[CNOS])", s):
+    # a position where an atom has just ended (letter, bracket atom, ring digit, closed branch) and another atom starts
+    for m in re.finditer(r"(?<=[A-Za-z0-9\])])(?=[A-Za-z]|\[(?![$<>\]]))", s):
         i = m.start()
-        if i in oe:
-            out.append(("descriptor-between-atoms", i, s[:i] + "[$]" + s[i:]))
+        if i not in oe and i - 1 not in oe:
+            continue
+        before = s[:i]
+        if before.count("{") == before.count("}") and "{" in s:
+            pass  # inside a prefix / suffix token: equally ill-formed
+        # skip positions inside a two-letter atom or a bracket atom
+        if (i < len(s) and s[i - 1 : i + 1] in ("Cl", "Br", "Si", "Na")) or before.count("[") != before.count("]"):
+            continue
+        if s[i - 1] == "]" and R.DESC_RE.search(before[-14:]) and R.DESC_RE.search(before[-14:]).end() == len(before[-14:]):
+            continue  # directly after a descriptor: would be two adjacent descriptors, another rule
+        for ins in ("[$]", "[<]"):
+            out.append(("descriptor-between-atoms", i, s[:i] + ins + s[i:]))
     # unknown descriptor symbol
     for m in R.DESC_RE.finditer(s):
         j = m.start() + 1
@@ -93,10 +104,22 @@ def system_mutations(s):
 
 
 def bases(tier, seed):
-    from ..instances import families
+    from ..instances import UNITS_DIR, UNITS_SYM, families, mass
 
     out = []
     seen = set()
+    # every unit of the token library inside a small homopolymer (all tiers)
+    for u in UNITS_DIR + ["[<]CC([>])C(=O)OCC", "[<]C(C[>])(c1ccccc1)", "[<]CC([<|0|])C(=O)OC[>]", "[<]=CC(=[>])CO"]:
+        t = f"N{{[>]{u}[<]}}|gauss({round(1.5 * mass(u), 2)}, 0)|F"
+        if "=" in u.split("]")[0] + u[u.rfind("[") - 1 :]:
+            continue
+        seen.add(t)
+        out.append(t)
+    for u in UNITS_SYM + ["[$]CC([$])C(=O)OC", "[$]C([$])(C#N)CC"]:
+        e = "; [$][H]" if u.count("[$") > 2 else ""
+        t = f"N{{[$]{u}{e}[$]}}|gauss({round(1.5 * mass(u), 2)}, 0)|F"
+        seen.add(t)
+        out.append(t)
     for inst in families(tier, seed):
         if inst.text not in seen:
             seen.add(inst.text)
@@ -239,6 +262,41 @@ def eval_case(kind, data):
                     ops.add(f"negative-generable:{gable}")
                     if gable:
                         viol(res, "C15|negative-weight-generable", f"{neg!r} reports generable", {"text": neg})
+        # element-level misuse, also on mirrored molecules (history: parse -> mirror -> generate an element)
+        for b in data["bases"]:
+            try:
+                mol0 = gbigsmiles.Molecule(b)
+                variants = [("parsed", mol0.elements)]
+                mir = mol0.gen_mirror()
+                if mir is not None:
+                    variants.append(("mirrored", mir.elements))
+            except Exception:  # noqa
+                continue
+            for vname, els in variants:
+                for el in els:
+                    if not isinstance(el, gbigsmiles.Stochastic):
+                        continue
+                    lt = el.left_terminal.generate_string(False)
+                    res["states"] += 1
+                    res["traces"] += 1
+                    res["transitions"] += 1
+                    if lt != "[]":
+                        st, o = run_limited(lambda: el.generate(rng=np.random.default_rng(5)).smiles, (), 20)
+                        ops.add(f"element-missing-prefix-{vname}:{st}")
+                        if st == "ok":
+                            viol(res, f"C15|accepted|element-missing-prefix|{vname}", f"{vname} stochastic element {str(el)!r} of {b!r} has left terminal {lt} but generates without a prefix: {o}", {"text": b, "variant": vname})
+                        elif st in ("timeout", "memory"):
+                            viol(res, f"C15|non-termination|element-missing-prefix|{vname}", f"{vname} element {str(el)!r}: {st}", {"text": b})
+                        # a prefix whose open descriptor differs from the left terminal
+                        wrong = "[$9]" if "$" not in lt else "[<9]"
+                        try:
+                            pre = gbigsmiles.SmilesToken("C" + wrong, 0, 0).generate(rng=np.random.default_rng(5))
+                            st, o = run_limited(lambda: el.generate(prefix=pre, rng=np.random.default_rng(5)).smiles, (), 20)
+                            ops.add(f"element-prefix-mismatch-{vname}:{st}")
+                            if st == "ok":
+                                viol(res, f"C15|accepted|element-prefix-mismatch|{vname}", f"{vname} element {str(el)!r} accepts a prefix with open descriptor {wrong}: {o}", {"text": b, "variant": vname})
+                        except Exception:  # noqa
+                            pass
         # direct API misuse
         for txt, lvl, name in [("C.|50%|CC.|50%|", "sys", "system-without-mass"), ("C.|100|CC", "sys", "system-underdetermined")]:
             got, det = attempt(txt, level=lvl)
